@@ -170,6 +170,17 @@ def make_designs(ctx: Ctx, n: int):
             e = gen.gen_sge(rng, dict(focus, p_pam=1.0, p_bg=0.0, n_targetons=1, p_gtf=1.0 if d.get('gtf') else 0.0))
             d0 = gen.gen_sge(rng, dict(focus, p_pam=1.0, p_bg=0.0, n_targetons=rng.choice([1, 2]), p_gtf=1.0 if d.get('gtf') else 0.0))
             for x in (d0, e):
+                # both contigs use the guide name sg1, with an edit of their own inside a targeton that lists it
+                t_ = x['targetons'][0]
+                inr = [p_ for p_ in x.get('pam') or [] if t_['ref_start'] <= p_['pos'] <= t_['ref_end']]
+                if inr:
+                    for p_ in x['pam']:
+                        if p_['sgrna'] == 'sg1':
+                            p_['sgrna'] = 'sg9'
+                    for t2_ in x['targetons']:
+                        t2_['sgrna'] = ['sg9' if g_ == 'sg1' else g_ for g_ in (t2_.get('sgrna') or [])]
+                    inr[0]['sgrna'] = 'sg1'
+                    t_['sgrna'] = ['sg1']        # the same set of guide names on both contigs
                 x['extra_contigs'] = {}
                 for f in x.get('vcfs') or []:
                     f['records'] = [r for r in f['records'] if r.get('contig', x['contig']) == x['contig']]
